@@ -159,6 +159,66 @@ def cvc5_check(text, timeout_s):
     return run_cli(['/usr/bin/cvc5', '--lang=smt2', '--strings-exp', f'--tlimit={int(timeout_s * 1000)}'], text, timeout_s)
 
 
+def cvc5_model_payload(formulas, on_model, timeout_s):
+    """counter-model from cvc5 when z3 cannot produce one (long sequences): ask cvc5 for the values of the Int / Bool / (Seq Int)
+    constants, re-assert them as equalities in z3 (trivially satisfiable) and hand that z3 model to on_model"""
+    import re
+    s = z3.Solver()
+    s.add(*formulas)
+    text = '(set-option :produce-models true)\n' + s.to_smt2() + '\n(get-model)\n'
+    with tempfile.NamedTemporaryFile('w', suffix='.smt2', delete=False, dir=os.environ.get('VERIF_SCRATCH', '/var/tmp')) as f:
+        f.write(text)
+        path = f.name
+    try:
+        try:
+            p = subprocess.run(['/usr/bin/cvc5', '--lang=smt2', '--strings-exp', f'--tlimit={int(timeout_s * 1000)}', path],
+                               capture_output=True, text=True, timeout=timeout_s + 5)
+        except subprocess.TimeoutExpired:
+            return None
+        out = p.stdout or ''
+        if not out.lstrip().startswith('sat'):
+            return None
+        body = out[out.index('sat') + 3:]
+        # top-level (define-fun name () Sort value) entries
+        defs, depth, start = [], 0, None
+        for i, ch in enumerate(body):
+            if ch == '(':
+                depth += 1
+                if depth == 2:
+                    start = i
+            elif ch == ')':
+                if depth == 2 and start is not None:
+                    defs.append(body[start:i + 1])
+                depth -= 1
+        eqs = []
+        for d in defs:
+            m = re.match(r'\(define-fun\s+(\|[^|]*\||\S+)\s+\(\)\s+(Int|Bool|\(Seq Int\))\s+(.*)\)\s*$', d, re.S)
+            if not m:
+                continue
+            name, sort, val = m.group(1), m.group(2), m.group(3).strip()
+            try:
+                fs_ = z3.parse_smt2_string(f'(declare-const {name} {sort})\n(assert (= {name} {val}))')
+                eqs.extend(list(fs_))
+            except z3.Z3Exception:
+                continue
+        if not eqs:
+            return None
+        s2 = z3.Solver()
+        s2.set('timeout', 5000)
+        s2.add(*eqs)
+        if s2.check() != z3.sat:
+            return None
+        try:
+            pl = on_model(s2.model())
+            if isinstance(pl, dict):
+                pl['model_from'] = 'cvc5 (values of the constants re-asserted in z3)'
+            return pl
+        except BaseException:       # noqa
+            return None
+    finally:
+        os.unlink(path)
+
+
 def z3old_check(text, timeout_s):
     return run_cli(['/usr/bin/z3', '-smt2', f'-T:{int(timeout_s)}'], text, timeout_s)
 
@@ -379,6 +439,8 @@ def discharge(ob, timeout_ms=None, portfolio='fallback', on_model=None):
                 status = 'disagree'
             if payload3 is not None:
                 payload = payload3
+    if status == 'refuted' and payload is None and on_model is not None and by.get('cvc5-1.0.3') == 'sat':
+        payload = cvc5_model_payload(fs, on_model, max(timeout_ms / 1000.0, 20.0))
     if portfolio == 'all' and text is None:
         text = to_smt2(ob.hyps, ob.goal)
     if portfolio == 'all':
